@@ -10,7 +10,7 @@ import (
 
 func init() {
 	register(&Property{
-		ID: "C03",
+		ID:      "C03",
 		Explain: "FOLD: ws.CheckHeader is evaluated abstractly over the whole product Fin x Rsv(0..7) x OpCode(0..15) x Masked x State(0..15) x Length-cells (cells are split automatically at every constant the code compares Length with) and each cell's outcome is compared with a reference table of the RFC 6455 rules the check owns: accept iff no rule is broken, and a rejection must name a broken rule. ws.CheckCloseFrameData is evaluated over interval cells of the 65536 status codes (split at every constant the code and the reference use) x {valid, invalid} reason. NewCloseFrameBody / PutCloseFrameBody are evaluated over cells of len(reason): result length <= 125, every index and slice expression proven in range. ParseCloseFrameData(/Unsafe) are evaluated over cells of len(payload): < 2 gives (0, \"\"), otherwise the code is read big-endian at offset 0 and the reason is payload[2:]. This decides the predicates for every input at once; it does not run them.",
 		Trusted: []string{"go/ssa construction (x/tools v0.29.0)", "go/types", "unicode/utf8.ValidString is the definition of valid UTF-8 (atom)", "encoding/binary.BigEndian (body followed, not assumed)", "the checker's own abstract evaluator (internal/fold)"},
 		Assume:  []string{"Header.Length >= 0 (the property quantifies over [0, 2^63-1])", "Rsv in 0..7 and OpCode in 0..15 (the header layout admits no other values)"},
